@@ -30,7 +30,16 @@ C18_Replicas(c, o) ==
   {"rolling-update-coordinated" : s \in {s \in R(c.sets) : s.replicas # s.updated /\ s.name \in R(o.managers)}}
   \cup {"ready-set-not-coordinated" : s \in {s \in R(c.sets) : s.replicas = s.updated /\ s.ready = s.replicas /\ s.name \notin R(o.managers)}}
 
+\* the same over time (steps = sequence of [st, adv]; obs.coordinated = what each call of Replicas() said): never while
+\* a rolling update is seen - however long it lasts -, always when updated and ready
+C18_ReplicaSeq(c, o) ==
+  {"rolling-update-coordinated" : k \in {k \in DOMAIN c.steps \cap DOMAIN o.coordinated : c.steps[k].st.replicas # c.steps[k].st.updated /\ o.coordinated[k]}}
+  \cup {"ready-set-not-coordinated" : k \in {k \in DOMAIN c.steps \cap DOMAIN o.coordinated :
+           c.steps[k].st.replicas = c.steps[k].st.updated /\ c.steps[k].st.ready = c.steps[k].st.replicas /\ ~o.coordinated[k]}}
+  \cup (IF Len(o.coordinated) # Len(c.steps) THEN {"calls-missing"} ELSE {})
+
 C18(c, o) == CASE c.kind = "list" -> C18_List(c, o)
                [] c.kind = "scale" -> C18_Scale(c, o)
                [] c.kind = "replicas" -> C18_Replicas(c, o)
+               [] c.kind = "replicaseq" -> C18_ReplicaSeq(c, o)
 =============================================================================
